@@ -374,9 +374,95 @@ pub fn gen_streamed_volume(r: &mut Rng) -> Plan {
     p
 }
 
+/// A statement with a long life whose first parameter was streamed (COM_STMT_SEND_LONG_DATA)
+/// for one execution only: every later execution sends it inline, hundreds or tens of thousands
+/// of times. What was streamed once must never come back, however the library counts.
+/// `first_chunk`: size of the first streamed chunk (a large one leaves a large buffer behind).
+pub fn gen_long_life_after_long_data(r: &mut Rng, period: usize, first_chunk: usize) -> Plan {
+    let id = *r.pick(&[3u32, 9, 0, u32::MAX]);
+    let mut cmds = vec![Cmd {
+        seq: 0,
+        kind: CmdKind::Prepare(Blob::lit(b"insert into t values (?, ?)")),
+        act: Act::Prepare(PrepAct::Reply {
+            id,
+            params: (0..2)
+                .map(|_| ColSpec {
+                    table: Blob::lit(b""),
+                    name: Blob::lit(b"?"),
+                    coltype: 0xfd,
+                    flags: 0,
+                })
+                .collect(),
+            cols: vec![],
+        }),
+    }];
+    for n in [first_chunk, 7] {
+        cmds.push(Cmd {
+            seq: 0,
+            kind: CmdKind::LongData {
+                stmt: id,
+                param: 0,
+                data: Blob::Gen {
+                    len: n as u32,
+                    salt: r.next() as u32,
+                    ascii: false,
+                },
+            },
+            act: Act::None,
+        });
+    }
+    let exec = |bind: Option<Vec<(u8, u8)>>, values: Vec<PVal>| Cmd {
+        seq: 0,
+        kind: CmdKind::Execute {
+            stmt: id,
+            flags: 0,
+            iters: 1,
+            block: ParamBlock {
+                bind,
+                values,
+                raw: None,
+                stale_types: None,
+            },
+        },
+        act: Act::Program(simple_ok_program()),
+    };
+    cmds.push(exec(Some(vec![(0xfc, 0), (0x08, 0)]), vec![PVal::Skip, PVal::Int(0)]));
+    for i in 1..=period + 2 {
+        let text = PVal::Bytes {
+            data: Blob::Lit(format!("row {}", i).into_bytes()),
+            form: 0,
+        };
+        // now and then the types travel again (same types): a rebind is no new streaming either
+        let bind = if i % 1000 == 999 && r.coin() { Some(vec![(0xfc, 0), (0x08, 0)]) } else { None };
+        cmds.push(exec(bind, vec![text, PVal::Int(i as i64)]));
+    }
+    let mut p = Plan::basic(cmds);
+    p.arrival = if r.coin() { Arrival::upfront() } else { Arrival::lockstep() };
+    if period > 10_000 || first_chunk > 100_000 {
+        p.reads = ReadSched {
+            explicit: vec![],
+            cuts: vec![],
+            tail: Tail::Fixed(*r.pick(&[4096u32, 65_536, 1_000_003])),
+        };
+    }
+    p
+}
+
 fn gen_c08(r: &mut Rng, _t: Tier, job: u64) -> Plan {
     if job % 40_000 == 7 {
         return gen_streamed_volume(r);
+    }
+    if job == 1 {
+        return gen_long_life_after_long_data(r, 65_536, 20);
+    }
+    if job % 2_000 == 778 {
+        let period = *r.pick(&[256usize, 256, 255, 257, 512, 3]);
+        let first = *r.pick(&[20usize, 20, 1_100_000, 1_048_576, 70_000]);
+        return gen_long_life_after_long_data(r, period, first);
+    }
+    if job % 200_000 == 50_001 {
+        let period = *r.pick(&[65_536usize, 65_535, 65_537, 131_072]);
+        return gen_long_life_after_long_data(r, period, 20);
     }
     let np = *r.pick(&[0usize, 1, 1, 2, 3, 5, 7, 8, 9, 15, 16, 17, 40, 300]);
     // ids are the shim's choice: anything, the extremes included
@@ -1042,6 +1128,29 @@ pub fn c10() -> Simple {
 
 pub struct C13;
 
+/// every place of a conversation where the shim reports an error of its choosing
+fn visit_err_sites(cmds: &mut [Cmd], f: &mut dyn FnMut(&mut u16, &mut Blob)) {
+    for c in cmds.iter_mut() {
+        match &mut c.act {
+            Act::Program(p) => {
+                for u in p.units.iter_mut() {
+                    if let Unit::Rows(ru) = u {
+                        if let Close::FinishError { kind, msg } = &mut ru.close {
+                            f(kind, msg);
+                        }
+                    }
+                }
+                if let End::Error { kind, msg } = &mut p.end {
+                    f(kind, msg);
+                }
+            }
+            Act::Prepare(PrepAct::Error { kind, msg }) => f(kind, msg),
+            Act::Init(InitAct::Error { kind, msg }) => f(kind, msg),
+            _ => {}
+        }
+    }
+}
+
 fn gen_c13_plan(r: &mut Rng, kind: u16) -> Plan {
     let msg = gen_errmsg(r);
     let site = r.below(8);
@@ -1236,7 +1345,41 @@ impl Check for C13 {
         }
         let kinds = crate::kinds::KINDS;
         let kind = kinds[(job % kinds.len() as u64) as usize].1;
-        let plan = gen_c13_plan(rng, kind);
+        let mut plan = gen_c13_plan(rng, kind);
+        if rng.chance(1, 6) {
+            // the same kind of error a second time on the connection (from the same or another
+            // reporting site), with a message of the same length but other content: what the
+            // first one left behind must not colour the second
+            let mut first: Option<Vec<u8>> = None;
+            visit_err_sites(&mut plan.cmds, &mut |_, m| {
+                if first.is_none() {
+                    first = Some(m.to_vec());
+                }
+            });
+            if let Some(m0) = first.filter(|m| !m.is_empty() && m.len() <= 100_000) {
+                let mut extra = gen_c13_plan(rng, kind).cmds;
+                let mut twin = m0.clone();
+                let mut changed = false;
+                for b in twin.iter_mut() {
+                    let nb = match *b {
+                        b'a'..=b'y' | b'A'..=b'Y' | b'0'..=b'8' => *b + 1,
+                        b'z' => b'a',
+                        b'Z' => b'A',
+                        b'9' => b'0',
+                        x => x,
+                    };
+                    changed |= nb != *b;
+                    *b = nb;
+                }
+                if !changed {
+                    let l = twin.len() - 1;
+                    twin[l] ^= 0x01;
+                }
+                visit_err_sites(&mut extra, &mut |_, m| *m = Blob::Lit(twin.clone()));
+                ctx.stats.bump("probe.twin_errors", 1);
+                plan.cmds.extend(extra);
+            }
+        }
         ctx.stats.bump("probe.kinds_visited_jobs", 1);
         ctx.eval(&plan);
         super::props::tcp_share(&plan, job, ctx);
